@@ -398,7 +398,8 @@ def Holds (b : Block) (o : Nat) (s : Bytes) : Prop :=
 
 /-- node `n` represents the value `s` in `heap` -/
 def Rep (heap : List Block) (n : Node) (s : Bytes) : Prop :=
-  ∃ b, heap[n.blk]? = some b ∧ b.live = true ∧ off + ptrSize + 1 ≤ b.size ∧ (s.length : Int) ≤ SSIZE_MAX ∧
+  ∃ b, heap[n.blk]? = some b ∧ b.live = true ∧ off + ptrSize + 1 ≤ b.size ∧
+    ((s.length : Int) ≤ SSIZE_MAX ∧ (s.length : Int) < INT_MAX - strSetGuardSlack) ∧
     ((n.len = (s.length : Int) ∧ Holds b off s) ∨
      (n.len = -(s.length : Int) ∧ 1 ≤ s.length ∧
         ∃ p bp, n.pdata = some p ∧ p ≠ n.blk ∧ heap[p]? = some bp ∧ bp.live = true ∧ Holds bp 0 s))
@@ -753,7 +754,11 @@ theorem lim_ck (site : String) :
   congr 1
 
 /-- the request is beyond what `_json_object_new_string` accepts -/
-def bigLen (len : Nat) : Prop := len > ssizeMax - hdr - strNewGuardSlack
+def bigLen (len : Nat) : Prop :=
+  len > ssizeMax - hdr - strNewGuardSlack ∨ (len : Int) ≥ INT_MAX - strNewIntGuardSlack
+
+/-- both constructors of a value (new, set) refuse the same lengths -/
+theorem new_int_guard : strNewIntGuardSlack = strSetGuardSlack := by decide
 
 theorem newString_spec (m : Mem) (src : Src) (len : Nat) (ok : Bool) (bs : Bytes) (hm : MemInv m)
     (hsrc : ¬ bigLen len → ok = true → SrcOK m.heap src len bs) :
@@ -771,10 +776,14 @@ theorem newString_spec (m : Mem) (src : Src) (len : Nat) (ok : Bool) (bs : Bytes
   refine ⟨?_, ?_, ?_⟩
   · intro hbig
     unfold bigLen at hbig
-    rw [if_pos hbig]
+    by_cases h1 : len > ssizeMax - hdr - strNewGuardSlack
+    · rw [if_pos h1]
+    · rw [if_neg h1, if_pos (by rcases hbig with h | h; exact absurd h h1; exact h)]
   · intro hbig hok
     unfold bigLen at hbig
-    rw [if_neg hbig]
+    have hb1 : ¬ len > ssizeMax - hdr - strNewGuardSlack := fun h => hbig (Or.inl h)
+    have hb2 : ¬ (len : Int) ≥ INT_MAX - strNewIntGuardSlack := fun h => hbig (Or.inr h)
+    rw [if_neg hb1, if_neg hb2]
     rw [ckSize_ok _ _ (by omega) (by omega)]; ostep
     rw [ckSize_ok _ _ (by omega) (by omega)]; ostep
     subst hok
@@ -794,7 +803,11 @@ theorem newString_spec (m : Mem) (src : Src) (len : Nat) (ok : Bool) (bs : Bytes
     have hs := hsrc hbig hok
     have hbl := hs.length
     unfold bigLen at hbig
-    rw [if_neg hbig]
+    have hb1 : ¬ len > ssizeMax - hdr - strNewGuardSlack := fun h => hbig (Or.inl h)
+    have hb2 : ¬ (len : Int) ≥ INT_MAX - strNewIntGuardSlack := fun h => hbig (Or.inr h)
+    have hng := new_int_guard
+    have hI : INT_MAX = (intMax : Int) := rfl
+    rw [if_neg hb1, if_neg hb2]
     rw [ckSize_ok _ _ (by omega) (by omega)]; ostep
     rw [ckSize_ok _ _ (by omega) (by omega)]; ostep
     subst hok
@@ -1248,7 +1261,7 @@ theorem equalStr_spec (m : Mem) (n1 n2 : Node) (s1 s2 : Bytes) (hm : MemInv m)
     rw [hsc1]; ostep
     rw [hsc2]; ostep
     rw [absLen_spec h1]; ostep
-    have hss1 : (s1.length : Int) ≤ SSIZE_MAX := by obtain ⟨_, _, _, _, hss, _⟩ := h1; exact hss
+    have hss1 : (s1.length : Int) ≤ SSIZE_MAX := by obtain ⟨_, _, _, _, hss, _⟩ := h1; exact hss.1
     rw [ckSize_ok _ _ (by omega) (by omega)]; ostep
     have htn : (s1.length : Int).toNat = s1.length := by omega
     rw [htn]
@@ -1272,7 +1285,7 @@ theorem serializePayload_spec (m : Mem) (n : Node) (s : Bytes) (hm : MemInv m) (
   rw [h.liveNode]; ostep
   obtain ⟨id, o, b, hsc, hb, hl, hh, _⟩ := stringComponent_spec h "serialize: get_string_component"
   rw [hsc]; ostep
-  have hss : (s.length : Int) ≤ SSIZE_MAX := by obtain ⟨_, _, _, _, hss, _⟩ := h; exact hss
+  have hss : (s.length : Int) ≤ SSIZE_MAX := by obtain ⟨_, _, _, _, hss, _⟩ := h; exact hss.1
   have hc := hm.cells id b hb
   have htn : (s.length : Int).toNat = s.length := by omega
   have fin : ∃ m', (do
@@ -1314,6 +1327,9 @@ theorem shallowCopy_spec (m : Mem) (n : Node) (s : Bytes) (ok : Bool) (hm : MemI
   obtain ⟨k1, k2⟩ := copy_facts
   obtain ⟨r1, r2⟩ := toInt_range (s.length : Int)
   have hle := toInt_le (s.length : Int) (by omega)
+  have hng := new_int_guard
+  have hfit : (s.length : Int) < INT_MAX - strSetGuardSlack := by
+    obtain ⟨_, _, _, _, hss, _⟩ := h; exact hss.2
   unfold shallowCopy
   obtain ⟨id, o, b, hsc, hb, hl, hh, _⟩ := stringComponent_spec h "copy: get_string_component(src)"
   rw [hsc]; ostep
@@ -1436,10 +1452,10 @@ def Desc (v : Option Bytes) (op : Op) (r : Res) (v' : Option Bytes) : Prop :=
 source object unless the call refuses them before reading -/
 def Op.WF : Op → Prop
   | .new obj _ => (obj.length : Int) ≤ INT_MAX
-  | .newn k => INT_MIN ≤ k ∧ k ≤ claimSource.length
+  | .newn k => INT_MIN ≤ k ∧ k ≤ INT_MAX ∧ (k ≤ claimSource.length ∨ k ≥ INT_MAX - strNewIntGuardSlack)
   | .set obj _ => (obj.length : Int) ≤ INT_MAX
   | .setn k => INT_MIN ≤ k ∧ k ≤ INT_MAX ∧ (k ≤ claimSource.length ∨ k ≥ INT_MAX - strSetGuardSlack)
-  | .eq a b => (a.length : Int) ≤ INT_MAX ∧ ∀ b', b = some b' → (b'.length : Int) ≤ INT_MAX
+  | .eq a b => (a.length : Int) < INT_MAX - strNewIntGuardSlack ∧ ∀ b', b = some b' → fitsSet b'.length
   | _ => True
 
 theorem toSizeT_nat (k : Nat) : toSizeT (k : Int) = k := by
@@ -1522,8 +1538,7 @@ theorem claim_len : claimSource.length = 8 := rfl
 
 /-- the `eq` op: a temporary second node is built, optionally mutated, compared both ways, released -/
 theorem eq_gen (m : Mem) (n : Node) (s a : Bytes) (b : Option Bytes)
-    (hw : WInv { mem := m, node := some n } (some s)) (ha : (a.length : Int) ≤ INT_MAX)
-    (hb : ∀ b', b = some b' → (b'.length : Int) ≤ INT_MAX) :
+    (hw : WInv { mem := m, node := some n } (some s)) (ha : (a.length : Int) < INT_MAX - strNewIntGuardSlack) :
     ∃ w' r, step { mem := m, node := some n } (.eq a b) = .ok (w', r) ∧ WInv w' (some s) ∧
       r = .cmp (ByteStr.equal s (eqOther a b)) (ByteStr.equal (eqOther a b) s) := by
   obtain ⟨f1, f2, f3, f4, f5, f6, f7⟩ := hdr_facts
@@ -1657,8 +1672,8 @@ theorem step_gen (w : World) (v : Option Bytes) (op : Op) (hw : WInv w v) (hwf :
         unfold step newStringLen; dsimp only
         rw [toSizeT_nat]; exact h1
       | newn k =>
-        obtain ⟨hk1, hk2⟩ := hwf
-        rw [claim_len] at hk2
+        obtain ⟨hk1, hk2, hk3⟩ := hwf
+        rw [claim_len] at hk3
         have hsrc : ¬ bigLen (toSizeT k) → true = true → SrcOK m.heap (.caller claimSource) (toSizeT k) (claimSource.take (toSizeT k)) := by
           intro hnb _
           refine ⟨?_, rfl⟩
@@ -1667,7 +1682,7 @@ theorem step_gen (w : World) (v : Option Bytes) (op : Op) (hw : WInv w v) (hwf :
           unfold toSizeT
           by_cases hneg : k < 0
           · rw [if_pos hneg] at hnb; omega
-          · rw [if_neg hneg]; omega
+          · rw [if_neg hneg] at hnb ⊢; omega
         obtain ⟨w', r, v', h1, h2, h3⟩ := ctor_gen m (.caller claimSource) (toSizeT k) true _ hm hdead hsrc
         refine ⟨w', r, v', ?_, h2, h3⟩
         unfold step newStringLen; dsimp only
@@ -1729,7 +1744,7 @@ theorem step_gen (w : World) (v : Option Bytes) (op : Op) (hw : WInv w v) (hwf :
         unfold step; dsimp only
         rw [h1]; ostep; rfl
       | eq a b =>
-        obtain ⟨w', r, h1, h2, h3⟩ := eq_gen m n s a b hw hwf.1 hwf.2
+        obtain ⟨w', r, h1, h2, h3⟩ := eq_gen m n s a b hw hwf.1
         exact ⟨w', r, some s, h1, h2, h3, rfl⟩
       | copy ok =>
         obtain ⟨w', r, h1, h2, h3, h4⟩ := copy_gen m n s ok hw
@@ -1778,14 +1793,16 @@ theorem WInv.empty : WInv {} none := ⟨MemInv.empty, fun id b h => by simp at h
 /-! ### facts used by the property statements -/
 theorem set_guard_le_one : strSetGuardSlack ≤ 1 := by decide
 
-theorem cPrefix_replicate (k : Nat) : ByteStr.cPrefix (List.replicate k (65 : UInt8)) = List.replicate k 65 := by
-  unfold ByteStr.cPrefix
-  induction k with
-  | zero => rfl
-  | succ k _ => rw [List.replicate_succ, List.takeWhile_cons]; simp
-
-/-- a NUL-free string of `k` bytes exists (kept abstract below: nothing ever enumerates it) -/
-theorem exists_nulfree (k : Nat) : ∃ obj : Bytes, ByteStr.cPrefix obj = obj ∧ obj.length = k :=
-  ⟨List.replicate k 65, cPrefix_replicate k, List.length_replicate⟩
+/-- every value a node holds is short enough for `json_object_get_string_len` (both constructors of
+values refuse `len >= INT_MAX - 1`) -/
+theorem WInv.small {w : World} {s : Bytes} (h : WInv w (some s)) :
+    (s.length : Int) < INT_MAX - strSetGuardSlack := by
+  obtain ⟨_, h2⟩ := h
+  cases hn : w.node with
+  | none => rw [hn] at h2; exact h2.elim
+  | some n =>
+    rw [hn] at h2
+    obtain ⟨⟨_, _, _, _, hss, _⟩, _⟩ := h2
+    exact hss.2
 
 end JsonC.StrStore
